@@ -47,7 +47,7 @@ KERNELS = [
     ["add", ["cp", 0, "SE", "SE"], "WN"],
 ]
 NOISES = ["none", "y_err", "y_cov_diag", "y_cov_full"]
-ND_ALL = [(n, d) for d in (1, 2, 3) for n in (2, 3, 5, 8)]
+ND_ALL = [(n, d) for d in (1, 2, 3) for n in (2, 3, 4, 5, 8)]
 DESIGNS = ["regular", "clustered", "permuted"]
 
 
